@@ -83,10 +83,12 @@ struct VisOracle {
 // Orthogonal reference: rectangles (already grown by the buffer distance), unrestricted end directions.
 struct HananOracle {
     std::vector<RectB> rects;
+    std::vector<Pt> blocked;          // points no route may pass through (other than as its own start / target)
     double solve(Pt a, Pt b, double pen) const {
         std::set<double> X, Y;
         for (auto &o : rects) { X.insert(o.x); X.insert(o.x + o.w); Y.insert(o.y); Y.insert(o.y + o.h); }
         X.insert(a.x); X.insert(b.x); Y.insert(a.y); Y.insert(b.y);
+        for (auto &q : blocked) { X.insert(q.x); Y.insert(q.y); }
         std::vector<double> xs(X.begin(), X.end()), ys(Y.begin(), Y.end());
         int nxs = (int)xs.size(), nys = (int)ys.size();
         auto inside = [&](double x, double y) { for (auto &o : rects) if (x > o.x && x < o.x + o.w && y > o.y && y < o.y + o.h) return true; return false; };
@@ -109,6 +111,7 @@ struct HananOracle {
                 if (dir < 4 && (k ^ 1) == dir) continue;         // no reversal
                 double mx = (xs[i] + xs[p]) / 2, my = (ys[j] + ys[q]) / 2;
                 if (inside(mx, my)) continue;
+                if (!blocked.empty() && !(p == ti && q == tj)) { bool bl = false; for (auto &bq : blocked) if (bq.x == xs[p] && bq.y == ys[q]) bl = true; if (bl) continue; }
                 double c = std::fabs(xs[p] - xs[i]) + std::fabs(ys[q] - ys[j]);
                 if (dir < 4 && k != dir) c += pen;
                 size_t k2 = key(p, q, k);
